@@ -286,13 +286,16 @@ Proof.
   destruct (IH _ _ H) as [X|X]; [left; right; exact X|].
   destruct (i =? m) eqn:E; [|auto]. apply Nat.eqb_eq in E. injection X as ->. subst. left; left; reflexivity.
 Qed.
+Lemma find_repl_acc_some replicas m : forall x, exists y, find_repl replicas m (Some x) = Some y.
+Proof.
+  induction replicas as [|[j v] r IH]; intros x; simpl; [eauto|].
+  destruct (j =? m); apply IH.
+Qed.
 Lemma find_repl_none replicas m : forall acc,
   find_repl replicas m acc = None -> forall t, ~ In (m, t) replicas.
 Proof.
   induction replicas as [|[i u] r IH]; intros acc H t; simpl in *; [tauto|].
   intros [E|X]; [|eapply IH; eauto].
   injection E as -> ->. rewrite Nat.eqb_refl in H.
-  clear IH. revert H. generalize (Some t). intros o. revert o.
-  induction r as [|[j v] r IHr]; intros o H; simpl in H; [discriminate|].
-  destruct (j =? m); eapply IHr; eauto.
+  destruct (find_repl_acc_some r m t) as (y & Hy). congruence.
 Qed.
